@@ -36,7 +36,8 @@ class C10(object):
                          'model.judged.with_flat_paths_of_many_digit_values_as_list_objects',
                          'model.two_economies_with_the_same_sector_codes.judged',
                          'same_text_read_again_after_the_horizon_was_set_on_the_solver.cases',
-                         'block_with_a_reported_non_equation_line_and_the_horizon_set_on_the_solver.cases')
+                         'block_with_a_reported_non_equation_line_and_the_horizon_set_on_the_solver.cases',
+                         'block_with_a_trailing_remark_naming_the_marker_word_and_a_blank_line.cases')
 
     def n_cases(self, tier):
         return 320 if tier == 'quick' else 30000
@@ -146,8 +147,12 @@ class C10(object):
             late = rng.randint(0, maxtime - 1)
         if m == 4:
             text = rng.choice(['Income block', '-- pasted from the appendix --', 'Model 3.1']) + '\n' + text
+        if m == 1:
+            # the first equation carries a trailing remark that mentions the word exogenous, a blank line follows; everything after it
+            # (initial conditions included) still belongs to the part of the block it is written in
+            text = 'zz_note = 1.5   # exogenous in the book, endogenous here\n\n' + text
         case = {'kind': 'solve', 'spec': spec, 'text': text, 'late_horizon': late, 'same_text_read_before_the_horizon_is_set': m == 8,
-                'heading_line_with_horizon_on_solver': m == 4,
+                'heading_line_with_horizon_on_solver': m == 4, 'remark_with_marker_word_then_blank_line': m == 1,
                 'via': via, 'reduction': (rng.random() < 0.5) or (zero_ic and m != 11), 'earlier': None, 'zero_ic': zero_ic}
         if via == 'line' and rng.random() < 0.35:
             # the same solver object has already parsed and solved another block with another horizon
@@ -314,6 +319,8 @@ class C10(object):
             except ValueError:
                 pass
             rec.count('same_text_read_again_after_the_horizon_was_set_on_the_solver.cases')
+        if case.get('remark_with_marker_word_then_blank_line'):
+            rec.count('block_with_a_trailing_remark_naming_the_marker_word_and_a_blank_line.cases')
         if case.get('heading_line_with_horizon_on_solver'):
             rec.count('block_with_a_reported_non_equation_line_and_the_horizon_set_on_the_solver.cases')
         if case['via'] in ('solver', 'solver_override'):
@@ -398,6 +405,10 @@ class C10(object):
 
     def judge_series(self, rec, ts, spec, T, case):
         expected_names = set(G.all_value_names(spec) + [d['name'] for d in spec['decos']] + ['k', 't'])
+        if case.get('remark_with_marker_word_then_blank_line'):
+            expected_names.add('zz_note')
+            if list(ts.get('zz_note', []))[1:] != [1.5] * T:
+                rec.violate('constant_not_its_value', {'var': 'zz_note', 'got': list(ts.get('zz_note', []))[:6]})
         if set(ts.keys()) != expected_names:
             rec.violate('series_set_wrong', {'missing': sorted(expected_names - set(ts.keys())),
                                              'extra': sorted(set(ts.keys()) - expected_names)})
